@@ -61,7 +61,7 @@ theorem take_append_one {α : Type} (l : List α) (x : α) : (l ++ [x]).take l.l
   simp
 
 /-- driver = spec one nesting level further down, for every well-formed `D` -/
-structure Hyp (env : Env) (ctx : Frame) (f : Nat) : Prop where
+structure Hyp (env : Env) (ctx : Cfg) (f : Nat) : Prop where
   list : ∀ (D : Nat → List (List Item)), WF D → ∀ (cur : Option Nat) (blk : Bool) (k : Nat)
       (rcur : Option Nat) (disc ext : Bool) (outer : Nat) (ae : AE) (items : List Item) (st : St),
       (∀ n, cur = some n → rcur = some n) → (cur.isSome = true → blk = true) →
@@ -73,7 +73,7 @@ structure Hyp (env : Env) (ctx : Frame) (f : Nat) : Prop where
       outFr (evalImpl env ctx f rcur disc false outer ae layout st) =
         (specAll env ctx f).chain chain disc outer ae layout st.frames
 
-theorem Hyp.body {env : Env} {ctx : Frame} {f : Nat} (h : Hyp env ctx f)
+theorem Hyp.body {env : Env} {ctx : Cfg} {f : Nat} (h : Hyp env ctx f)
     (D : Nat → List (List Item)) (hwf : WF D) (n k : Nat) (body : List Item) (disc : Bool) (outer : Nat) (ae : AE)
     (st : St) (hb : (D n)[k]? = some body) (hg : Good D (some n) true k st) :
     evalImpl env ctx f (some n) disc false outer ae body st =
@@ -85,7 +85,7 @@ theorem Hyp.body {env : Env} {ctx : Frame} {f : Nat} (h : Hyp env ctx f)
     rw [this]
     simp only [specAll, Option.map_some, hb]
 
-theorem callBlock_sim {env : Env} {ctx : Frame} {f : Nat} (h : Hyp env ctx f)
+theorem callBlock_sim {env : Env} {ctx : Cfg} {f : Nat} (h : Hyp env ctx f)
     (D : Nat → List (List Item)) (hwf : WF D) (cur : Option Nat) (k m : Nat) (disc : Bool) (outer : Nat) (ae : AE)
     (st : St) (hg : Good D cur true k st) (hm : ∀ n, cur = some n → n < m) :
     callBlock (evalImpl env ctx f) disc outer ae m st =
@@ -120,7 +120,7 @@ theorem callBlock_sim {env : Env} {ctx : Frame} {f : Nat} (h : Hyp env ctx f)
         | error e => simp [liftS]
         | ok r => obtain ⟨o, fs⟩ := r; simp [liftS]
 
-theorem performSuper_sim {env : Env} {ctx : Frame} {f : Nat} (h : Hyp env ctx f)
+theorem performSuper_sim {env : Env} {ctx : Cfg} {f : Nat} (h : Hyp env ctx f)
     (D : Nat → List (List Item)) (hwf : WF D) (n k : Nat) (disc : Bool) (outer : Nat) (ae : AE)
     (st : St) (hg : Good D (some n) true k st) :
     performSuper (evalImpl env ctx f) (some n) disc outer ae st =
@@ -166,7 +166,7 @@ theorem initChainSt (env : Env) (t : Nat) (T : Template) (hT : env[t]? = some T)
   simp only [prepare, defs, List.filterMap_cons, List.filterMap_nil, blockOf, hT]
   cases lookupBlock n T.blocks <;> rfl
 
-theorem include_sim {env : Env} {ctx : Frame} {f : Nat} (h : Hyp env ctx f) (henv : EnvOK env)
+theorem include_sim {env : Env} {ctx : Cfg} {f : Nat} (h : Hyp env ctx f) (henv : EnvOK env)
     (rcur : Option Nat) (disc ign : Bool) (outer : Nat) (names : List Nat) (tried : Bool) (st : St) :
     performInclude env (evalImpl env ctx f) rcur disc ign outer names tried st =
       liftS (specInclude env (specAll env ctx f) disc ign outer names tried st.frames) st := by
@@ -261,7 +261,7 @@ theorem cont_finish (R' : SRes) (st : St)
       | error e => rfl
       | ok r3 => obtain ⟨o3, st3, p3⟩ := r3; simp
 
-theorem sim_prefix {env : Env} {ctx : Frame} {f : Nat} (h : Hyp env ctx f) (henv : EnvOK env)
+theorem sim_prefix {env : Env} {ctx : Cfg} {f : Nat} (h : Hyp env ctx f) (henv : EnvOK env)
     (D : Nat → List (List Item)) (hwf : WF D)
     (cur : Option Nat) (blk : Bool) (k : Nat) (rcur : Option Nat) (disc0 ext0 : Bool) (outer : Nat) (ae : AE)
     (parent : Option (List Item))
@@ -471,6 +471,7 @@ theorem sim_prefix {env : Env} {ctx : Frame} {f : Nat} (h : Hyp env ctx f) (henv
             obtain ⟨o, fs'⟩ := r
             simp only [liftS]
             exact cont_finish (.ok (if (disc0 || parent.isSome) = true then [] else o, store st.frames m .opaque)) st _ _ _ hG
+    | badTarget => simp [stepItems, specItems, thenStepsF]
     | autoesc m body =>
       simp only [stepItems, specItems]
       cases hx : (body.any isExtends || body.any isAutoesc) with
@@ -682,10 +683,10 @@ theorem EnvOK.layout {env : Env} (henv : EnvOK env) {t : Nat} {T : Template} (hT
   simp only [templateOK, Bool.and_eq_true] at this
   exact this.1
 
-theorem hyp_zero (env : Env) (ctx : Frame) : Hyp env ctx 0 :=
+theorem hyp_zero (env : Env) (ctx : Cfg) : Hyp env ctx 0 :=
   ⟨by intros; simp [evalImpl, specAll, liftS], by intros; simp [evalImpl, specAll, outFr]⟩
 
-theorem hyp_succ (env : Env) (ctx : Frame) (henv : EnvOK env) (f : Nat) (h : Hyp env ctx f) :
+theorem hyp_succ (env : Env) (ctx : Cfg) (henv : EnvOK env) (f : Nat) (h : Hyp env ctx f) :
     Hyp env ctx (f + 1) := by
   constructor
   · intro D hwf cur blk k rcur disc ext outer ae items st hrc hb hok hg
@@ -780,7 +781,7 @@ theorem hyp_succ (env : Env) (ctx : Frame) (henv : EnvOK env) (f : Nat) (h : Hyp
 
 
 /-- driver = spec at every nesting fuel -/
-theorem hyp_all (env : Env) (ctx : Frame) (henv : EnvOK env) : ∀ f, Hyp env ctx f
+theorem hyp_all (env : Env) (ctx : Cfg) (henv : EnvOK env) : ∀ f, Hyp env ctx f
   | 0 => hyp_zero env ctx
   | f + 1 => hyp_succ env ctx henv f (hyp_all env ctx henv f)
 
